@@ -340,8 +340,26 @@ func (sp Spelling) intText(n int64) string {
 		} else {
 			s = "-0" + s[1:]
 		}
+		if sp.R.Chance(25) {
+			// zero padding to 21..40 characters (longer than any int64 spelling), signed and unsigned
+			s = padInt(strconv.FormatInt(n, 10), sp.R.Range(21, 40), n >= 0 && sp.R.Chance(40))
+		}
 	}
 	return s
+}
+
+// padInt spells the integer text with leading zeros up to `width` characters (sign included; `+` when plus).
+func padInt(s string, width int, plus bool) string {
+	sign := ""
+	if strings.HasPrefix(s, "-") {
+		sign, s = "-", s[1:]
+	} else if plus {
+		sign = "+"
+	}
+	for len(sign)+len(s) < width {
+		s = "0" + s
+	}
+	return sign + s
 }
 
 func (sp Spelling) sub(s Sub) string {
